@@ -659,6 +659,40 @@ impl Text {
                 }
             }
         }
+        // 4 threads at the same time, each starting at another offset of the batch (and one of them
+        // mixing in the other public entry point): state shared between concurrent calls
+        {
+            let shared = std::sync::Arc::new(texts.clone());
+            let handles: Vec<_> = (0..4usize)
+                .map(|k| {
+                    let t = shared.clone();
+                    std::thread::Builder::new().stack_size(64 << 20).spawn(move || {
+                        let n = t.len();
+                        let mut d = vec![0u64; n];
+                        for j in 0..n {
+                            let i = (j + k * n / 4) % n;
+                            d[i] = digest_of(&kside::generate(&t[i], u64::MAX).0);
+                            if k == 3 {
+                                let _ = crate::util::catch(|| kiki::get_grammar_hash(kiki::RustSrcRef(&t[i])).map(|s| s.len()));
+                            }
+                        }
+                        d
+                    })
+                })
+                .collect();
+            for h in handles {
+                match h.map(|h| h.join()) {
+                    Ok(Ok(d)) => {
+                        runs.push(d);
+                        w.count("concurrent-thread-runs");
+                    }
+                    _ => {
+                        w.inconclusive("a concurrent determinism run died");
+                        return;
+                    }
+                }
+            }
+        }
         // 2 further processes
         let path = w.scratch.join(format!("c14-{}.bin", w.shard));
         if write_inputs_file(&path, &texts).is_ok() {
@@ -909,7 +943,7 @@ impl Engine for Text {
         match prop {
             "C12" => "inputs: generated grammars whose struct / enum / terminal declarations carry 0-4 outer attributes each; attribute texts are random over an alphabet of everything but LF (nested brackets of the three kinds, //, #, $, quotes, TAB, CR, U+00A0, U+2028, U+FEFF, 2/3/4-byte characters at any offset incl. directly before the closing bracket, empty #[]), each with a unique marker, followed in the source by nothing / spaces / comments / newlines. One evaluation = one declaration: the lines immediately above `pub struct|enum <Name>` in the emitted text must be byte-for-byte the declaration's attributes in order, no attribute line may precede them, and every marked attribute must occur exactly once in the whole emitted text. Distinct non-trivial = distinct attribute texts longer than 4 bytes.".into(),
             "C13" => "inputs: generated grammars whose terminals have random payload types from the Kiki type grammar (unit, paths of 1-6 segments, generics nested to depth 8 with 1-4 arguments, unit as argument) written with random whitespace / comments between their tokens. One evaluation = one emitted module: at every use site (terminal enum variant, every struct / variant field of that terminal, node enum variant, try_into_* return type) the emitted type, re-tokenised, must equal the declared token sequence. Distinct non-trivial = distinct type expressions.".into(),
-            "C14" => "inputs: sources of every class (accepted grammars incl. the repository examples, conflicting grammars, every validation error, parse errors, lexical errors). One evaluation = one call of generate; every input is run 8 times in one process on 8 fresh threads (fresh SipHash keys per HashMap; odd runs go through the batch of 16 inputs backwards and one run calls every input twice in a row, so a dependence on earlier calls is visible) and once in each of 2 further processes; the bytes of Ok results / the {:?} of errors (positions and attached automaton included) must be identical. A canary HashSet iterated in every run records how many distinct hash orders were actually sampled. Distinct non-trivial = distinct inputs that reach the automaton construction (Ok or TableConflict).".into(),
+            "C14" => "inputs: sources of every class (accepted grammars incl. the repository examples, conflicting grammars, every validation error, parse errors, lexical errors). One evaluation = one call of generate; every input is run 8 times in one process on 8 fresh threads (fresh SipHash keys per HashMap; odd runs go through the batch of 16 inputs backwards and one run calls every input twice in a row, so a dependence on earlier calls is visible), 4 more times on 4 threads running at the same time (each starting at another offset of the batch, one of them also calling get_grammar_hash: state shared between concurrent calls) and once in each of 2 further processes; the bytes of Ok results / the {:?} of errors (positions and attached automaton included) must be identical. A canary HashSet iterated in every run records how many distinct hash orders were actually sampled. Distinct non-trivial = distinct inputs that reach the automaton construction (Ok or TableConflict).".into(),
             "C15" => "inputs: (a) accepted sources with / without trailing newline, CRLF, non-ASCII, leading comment up to 60 KB: the emitted text must start with a // block containing `// @sha256 ` + the SHA-256 of the source computed by an independent implementation, get_grammar_hash must return exactly that digest, and the build-script freshness test (stored digest == digest of current file) must accept the same text and reject a text differing in one byte; (b) header-like texts assembled from fragments (//, `// @sha256 `, repeated prefixes, CR, CRLF, blank and non-comment lines, Unicode): get_grammar_hash vs the rule in the property statement. One evaluation = one text. Distinct non-trivial = distinct texts.".into(),
             _ => "inputs: sources of every class (accepted, conflicting, every validation error, parse errors, lexical errors - there only the text before the offending lexeme is re-laid-out), each re-joined up to 6 times from the reference lexer's tokens with random separators: nothing where legal, any Unicode whitespace, LF / CRLF, // comments with arbitrary content, comment at the end without newline, everything on one line; validity of the re-layout (same kinds and texts) is re-checked with the reference lexer. One evaluation = one (source, re-layout) pair: Ok outputs must be identical outside the `// @sha256` line, errors identical after mapping every byte position through the token-start map. Distinct non-trivial = distinct sources with at least one re-layout.".into(),
         }
